@@ -33,7 +33,7 @@ pub struct C05;
 
 fn gen_history_op(rng: &mut Rng, big: bool) -> Op {
     let thread = rng.below(3) as u32;
-    match rng.below(40) {
+    match rng.below(41) {
         0..=11 => Op::AppendMessage {
             thread,
             size: if big && rng.chance(1, 3) { rng.range(4, 5) as u32 } else { rng.range(1, 3) as u32 },
@@ -79,6 +79,7 @@ fn gen_history_op(rng: &mut Rng, big: bool) -> Op {
             sel: CutSel::None,
             summary: SummarySel::Text,
         },
+        39 => Op::RawSession { frames: rng.range(3, 8) as u32 },
         _ => Op::Replay { thread },
     }
 }
@@ -100,7 +101,7 @@ pub fn generate(run_seed: u64, tier: Tier) -> Scenario {
 
 struct CrashState {
     index: usize,
-    /// results recorded (operations that had returned) before this point
+    /// frames acknowledged to the caller (appending call returned Ok) before this point
     acked_ops: usize,
     /// index of the operation in flight
     op_in_flight: usize,
@@ -140,7 +141,7 @@ fn abstract_state(cs: &CrashState) -> u64 {
 }
 
 /// Judge one restarted crash state. Runs the real restart + continuation on fresh threads.
-fn judge(dirs: &Dirs, cs: &CrashState, acked: &[crate::world::OpResult], stats: &mut RunStats) -> Option<Violation> {
+fn judge(dirs: &Dirs, cs: &CrashState, acked: &[(String, String)], stats: &mut RunStats) -> Option<Violation> {
     // restore the captured state in place (frames embed the workspace path)
     let _ = std::fs::remove_dir_all(&dirs.data);
     let _ = std::fs::remove_dir_all(rip_dir(dirs));
@@ -184,11 +185,7 @@ fn judge(dirs: &Dirs, cs: &CrashState, acked: &[crate::world::OpResult], stats: 
         // not addressable and is ignored
         truth0.thread_ids()
     };
-    let acked_ids: Vec<(String, String)> = acked
-        .iter()
-        .take(cs.acked_ops)
-        .flat_map(|r| r.acked_ids.iter().map(move |id| (id.clone(), r.op.clone())))
-        .collect();
+    let acked_ids: Vec<(String, String)> = acked.iter().take(cs.acked_ops).cloned().collect();
     let w = world.clone();
     let out2 = out.clone();
     let at2 = at.clone();
@@ -402,7 +399,7 @@ pub fn execute(sc: &Scenario, env: &Env) -> (Outcome, RunStats) {
         };
         let (acked_ops, in_flight) = {
             let reg = w2.reg.lock().unwrap();
-            (reg.results.len(), reg.results.len())
+            (reg.acks.len(), reg.results.len())
         };
         let mut g = st2.lock().unwrap();
         let index = g.len();
@@ -434,7 +431,7 @@ pub fn execute(sc: &Scenario, env: &Env) -> (Outcome, RunStats) {
             stats,
         );
     }
-    let acked: Vec<crate::world::OpResult> = world.reg.lock().unwrap().results.clone();
+    let acked: Vec<(String, String)> = world.reg.lock().unwrap().acks.clone();
     let states = std::mem::take(&mut *states.lock().unwrap());
     stats.bump("histories", 1);
     stats.bump("history_ops", sc.history.len() as u64);
